@@ -2,6 +2,15 @@ module gfharness
 
 go 1.21
 
-require github.com/netsampler/goflow2/v2 v2.0.0
+require (
+	github.com/netsampler/goflow2/v2 v2.0.0
+	google.golang.org/protobuf v1.36.5
+	gopkg.in/yaml.v3 v3.0.1
+)
+
+require (
+	github.com/libp2p/go-reuseport v0.4.0 // indirect
+	golang.org/x/sys v0.28.0 // indirect
+)
 
 replace github.com/netsampler/goflow2/v2 => /repo
